@@ -608,3 +608,48 @@ func init() {
 			}
 		}})
 }
+
+func init() {
+	register(&Rule{ID: "P.gate", Min: 2, Text: "the presence gate of a presenceless document drops everything the updater did with presence: in Document.Update the call Context.DropPresenceChange is always accompanied by Context.ClearReversePresence (undo/redo has no presence gate of its own — a presence undo entry left behind is executed locally by the next Undo and pushed, the server strips it, and the replicas disagree); and the server-built clear that detaches a deactivated client takes its ClientSeq from the client's stored checkpoint (ClientInfo.Checkpoint), the value the push de-duplication compares with, not from the client's latest stored change",
+		Run: func(x *Ctx) {
+			drop := x.P.FnObj(changePkg + ".(*Context).DropPresenceChange")
+			clr := x.P.FnObj(changePkg + ".(*Context).ClearReversePresence")
+			if drop == nil || clr == nil {
+				x.C.Unresolved(x.id(), "Context.DropPresenceChange / ClearReversePresence")
+				return
+			}
+			n := 0
+			for _, fn := range x.P.FuncsIn(docPkg) {
+				for i, d := range callsToIn(fn, drop) {
+					n++
+					ok := false
+					for _, c := range callsToIn(fn, clr) {
+						if x.P.PostDominates(c, d) || prog.Dominates(c, d) && c.Block() == d.Block() {
+							ok = true
+						}
+					}
+					x.check(ok, fmt.Sprintf("func=%s drop#%d clears-reverse-presence-too", prog.FnName(fn), i+1), x.pos(d), "the reverse presence is cleared together with the change", "the presence change is dropped but the reverse presence recorded for undo is kept: the next Undo/Redo replays presence on a presenceless document")
+				}
+			}
+			// server-built clear
+			newID := x.P.FnObj(changePkg + ".NewID")
+			cpM := x.P.FnObj(dbPkg + ".(*ClientInfo).Checkpoint")
+			cpCS := x.P.Field(changePkg + ".Checkpoint.ClientSeq")
+			if newID != nil && cpM != nil && cpCS != nil {
+				for _, fn := range x.P.FuncsIn("server/rpc") {
+					for i, c := range callsToIn(fn, newID) {
+						n++
+						a := paramArg(c, 0)
+						ok := (prog.LoadedField(a) == cpCS || isFieldVal(a, cpCS)) && prog.DependsOn(a, func(w ssa.Value) bool {
+							cc, isC := prog.Strip(w).(*ssa.Call)
+							return isC && sameFunc(prog.CallObj(cc), cpM)
+						})
+						x.check(ok, fmt.Sprintf("func=%s server-built-change-id#%d clientSeq=stored-checkpoint", prog.FnName(fn), i+1), x.pos(c), "the ClientSeq comes from ClientInfo.Checkpoint", "the ID of the change the server builds on the client's behalf does not take its ClientSeq from the client's stored checkpoint: after push-only syncs the clear is numbered at or below the checkpoint and the push drops it as already stored — the deactivated participant never disappears")
+					}
+				}
+			}
+			if n < 2 {
+				x.C.Vacuous(x.id()+" sites", n, 2)
+			}
+		}})
+}
